@@ -1,7 +1,7 @@
 #!/usr/bin/env python3
 # insert the chunk given on stdin before the final "End Pair." of M/RaftProofsC10Pair.v
 import sys
-p='/work/c10b/coq/M/RaftProofsC10Pair.v'
+p='/work/c10c/coq/M/RaftProofsC10Pair.v'
 s=open(p).read().rstrip()
 assert s.endswith("End Pair.")
 s=s[:-len("End Pair.")].rstrip()+"\n"+sys.stdin.read().rstrip()+"\n\nEnd Pair.\n"
